@@ -61,6 +61,7 @@ type Decoded struct {
 	OffUDP     int
 	OffTCP     int
 	OffPayload int
+	PayloadEnd int // end of the payload (0: the end of the frame)
 	// ARP sender (valid when PayloadID==PARP and no error)
 	ARPSenderMAC [6]byte
 	ARPSenderIP  netip.Addr
@@ -170,9 +171,10 @@ func Classify(f []byte) Decoded {
 		proto = p[9]
 		d.SrcIP = netip.AddrFrom4([4]byte(p[12:16]))
 		d.DstIP = netip.AddrFrom4([4]byte(p[16:20]))
+		// the datagram ends at the total length: bytes after it are Ethernet padding and belong to no upper layer
 		upper := p[ihl:tot]
-		padded := len(p) > tot
-		return classifyUpper(d, proto, upper, p[ihl:], padded)
+		d.PayloadEnd = hl + tot
+		return classifyUpper(d, proto, upper, upper, false)
 	case 0x86dd:
 		d.PayloadID = PIP6
 		d.Stage = "ip6"
